@@ -48,6 +48,7 @@ type closureInfo struct {
 }
 
 type VC struct {
+	embTerms []Term // addresses of embedded parts seen so far (never equal to a fresh object)
 	reachDef map[Term]Term // named merge conditions: name -> (or path1 path2 ...)
 	eng      *Engine
 	root     *ssa.Function
